@@ -351,8 +351,18 @@ func solve(body string, getValues []string, timeoutS int, only string) SolveResu
 	}
 	ch := make(chan SolveResult, len(solvers))
 	n := 0
+	allowed := os.Getenv("GVC_SOLVERS")
+	if allowed == "" {
+		// z3 4.8.12 is not part of the deciding portfolio: it answered `unsat` (seed-dependent, not
+		// reproduced by z3 5.1.0 / cvc5, nor on any single disjunct) on a vacuity cover that is a
+		// disjunction of satisfiable paths. GVC_SOLVERS=z3-new,z3,cvc5 re-enables it for experiments.
+		allowed = "z3-new,cvc5"
+	}
 	for _, sp := range solvers {
 		if only != "" && sp.name != only {
+			continue
+		}
+		if only == "" && allowed != "" && !strings.Contains(","+allowed+",", ","+sp.name+",") {
 			continue
 		}
 		n++
